@@ -46,9 +46,48 @@ func c07RandReqs(rnd *verifh.Rand, w *c07World, tab []c07Ent, avoidLimited bool)
 	return q
 }
 
+// c07Tame: the CloseRead-first variant cannot read an answer and has to wait out a
+// failure; keep it for opens the harness's own bookkeeping expects to work
+func c07Tame(w *c07World, tab []c07Ent, know []int64, q []int64, mode int64) int64 {
+	if (mode>>2)%c07NumFops != fopCloseReadWrite {
+		return mode
+	}
+	var target int64 = -1
+	for _, p := range q {
+		if c07Has(know, p) {
+			target = p
+			break
+		}
+	}
+	if target < 0 {
+		for _, p := range q {
+			if c07FirstMatch(tab, p) != nil {
+				target = p
+				break
+			}
+		}
+	}
+	if target >= 0 && c07FirstMatch(tab, target) != nil && !w.hasLimit(target) && (mode&1 == 1 || !w.limited) {
+		return mode
+	}
+	return mode &^ (7 << 2)
+}
+
 // the context of an open: 1 = made with network.WithAllowLimitedConn
-func c07Mode(rnd *verifh.Rand, w *c07World, out *verifh.Out) int64 {
+func c07Mode(rnd *verifh.Rand, w *c07World, out *verifh.Out, sequential bool) int64 {
 	m := c07AllowMode(rnd, w, out)
+	// bits 2..4: the dialer's first operations on the stream
+	if rnd.Chance(1, 2) {
+		fop := int64(1 + rnd.Intn(c07NumFops-1))
+		if (w.kind == 0 || w.kind == 3) && fop >= fopCloseWriteRead {
+			// mocknet tears a stream down (and drops it from the connection) on a half-close
+			fop -= 3
+		}
+		if fop == fopCloseWriteRead && !sequential {
+			fop = fopWriteCloseWriteRd
+		}
+		m |= fop << 2
+	}
 	// bit1: the application goes on exchanging bytes later (costs a sleep of
 	// the negotiation timeout in the world where that is short)
 	if (w.negto > 0 && rnd.Chance(1, 9)) || (w.negto == 0 && rnd.Chance(1, 4)) {
@@ -128,7 +167,7 @@ func c07Case(out *verifh.Out, w *c07World, rnd *verifh.Rand, nops int) {
 			r.setKnowledge(know)
 		case c < 84:
 			q := c07RandReqs(rnd, w, tab, false)
-			mode := c07Mode(rnd, w, out)
+			mode := c07Tame(w, tab, know, q, c07Mode(rnd, w, out, true))
 			if mode&1 == 1 || !w.limited {
 				r.coverOpen(tab, know, q)
 			}
@@ -140,13 +179,17 @@ func c07Case(out *verifh.Out, w *c07World, rnd *verifh.Rand, nops int) {
 			var modes []int64
 			for j := 0; j < n; j++ {
 				qs = append(qs, c07RandReqs(rnd, w, tab, true))
-				modes = append(modes, c07Mode(rnd, w, out))
+				m := c07Mode(rnd, w, out, false)
+				if (m>>2)%c07NumFops == fopCloseReadWrite {
+					m &^= 7 << 2 // knowledge moves during a batch: no prediction, no CloseRead-first
+				}
+				modes = append(modes, m)
 			}
 			out.Cover("batch.concurrent")
 			out.CoverN("batch.concurrent.opens", int64(n))
 			r.batch(qs, modes, rnd)
 			know = r.lastKnow
-		case c < 94 && w.kind != 2 && w.kind != 3:
+		case c < 94 && w.kind != 2 && !w.blankL:
 			// (the relay world would need a new reservation; a BlankHost listener does not answer identify)
 			if rnd.Chance(1, 2) && len(tab) > 0 {
 				// scripted prelude: the dialer knows what is served, then a served name goes away
@@ -183,6 +226,16 @@ func c07Case(out *verifh.Out, w *c07World, rnd *verifh.Rand, nops int) {
 				r.batch([][]int64{q}, []int64{1}, rnd)
 				know = r.lastKnow
 			}
+		case c < 96 && w.hasScope && len(r.slots) > 0:
+			// (without scopes the label is just overwritten: mocknet's own business)
+			var slot int64
+			for s := range r.slots {
+				slot = s
+				if rnd.Chance(1, 2) {
+					break
+				}
+			}
+			r.relabel(slot, int64(rnd.Intn(2)), int64(rnd.Intn(c07U)))
 		default:
 			var slot int64 = int64(rnd.Intn(int(r.nslot) + 1))
 			for s := range r.slots {
@@ -214,6 +267,7 @@ func c07Worlds(t *testing.T) []*c07World {
 		c07NewWorld(t, 2, limD, limL),
 		c07NewWorld(t, 3, c07NoLimits(), c07NoLimits()),
 		c07NewWorld(t, 4, c07NoLimits(), c07NoLimits()),
+		c07NewWorld(t, 5, limD, limL),
 	}
 }
 
@@ -265,7 +319,7 @@ func TestVerifC07Replay(t *testing.T) {
 	if in[2]&2 == 2 {
 		kind = 2
 	}
-	if in[1] == 3 || in[1] == 4 {
+	if in[1] == 3 || in[1] == 4 || in[1] == 5 {
 		kind = in[1]
 	}
 	w := c07NewWorld(t, kind, append([]int64{}, in[4:4+c07U]...), append([]int64{}, in[4+c07U:4+2*c07U]...))
@@ -318,6 +372,9 @@ func TestVerifC07Replay(t *testing.T) {
 		case 6:
 			r.closeSlot(in[i+1], in[i+2])
 			i += 3 + 2*c07U
+		case 8:
+			r.relabel(in[i+1], in[i+2], in[i+3])
+			i += 7
 		case 7:
 			r.reconnect(in[i+1], in[i+2])
 			i += 3
